@@ -488,6 +488,23 @@ theorem taiko_zero_hits_zero_pp (p11 pInv : PowFn) (h11 : p11 (.fin 0) = .fin 0)
     rw [this, hInv]; simp [XF.mul]
   · split_ifs <;> rfl
 
+/-- taiko: a non-positive great hit window (not reachable for OD ≤ 11, rate ≤ 2) also forces all
+three values to 0 through the same early returns — never NaN -/
+theorem taiko_nonpositive_window_zero_pp (p11 pInv : PowFn) (h11 : p11 (.fin 0) = .fin 0) (hInv : pInv (.fin 0) = .fin 0)
+    (impl : Rat → XF) (s : TaikoState) (ghw pl : XF) (sqrt2 : Rat) (diffBody accBody : XF → XF) (m : Rat)
+    (h : XF.le ghw (.fin 0) = true) :
+    let out := taikoCalculate p11 pInv s ghw (taikoDeviation true impl s ghw pl sqrt2) diffBody accBody m
+    out.pp = .fin 0 ∧ out.ppAcc = .fin 0 ∧ out.ppDifficulty = .fin 0 ∧ out.estimatedUnstableRate = none := by
+  have hd : taikoDeviation true impl s ghw pl sqrt2 = none := by
+    unfold taikoDeviation; simp [h]
+  rw [hd]
+  unfold taikoCalculate
+  simp only [Option.map_none, h, if_true]
+  refine ⟨?_, trivial, trivial, trivial⟩
+  rw [h11]
+  have : XF.add (.fin 0) (.fin 0) = .fin 0 := by simp [XF.add]
+  rw [this, hInv]; simp [XF.mul]
+
 /-- taiko: zero hits also give effective miss count 0 -/
 theorem taiko_zero_hits_emc (p11 pInv : PowFn) (s : TaikoState) (ghw : XF) (dev : Option XF)
     (diffBody accBody : XF → XF) (m : Rat) (h : s.totalHits = 0) :
